@@ -16,3 +16,7 @@ def run(chk):
         ex = explore(kind)
         handler_preamble(chk, ex, FUNCS[kind])
         hobl.c11_lifecycle(chk, ex, DOMAIN[kind])
+    from . import wrapper_contracts, batcher
+    wrapper_contracts.wrapper_obligations(chk, "C11", want=("C11",))
+    batcher.check_collect(chk, "C11")      # updates reach the API in hand-over order (a child's START after its parent's START)
+    batcher.check_consumer(chk, "C11")
